@@ -427,7 +427,7 @@ func (e *Exec) loopHeader(b *ssa.BasicBlock, preds []*ssa.BasicBlock) {
 			if e.parent == nil && !e.noObl {
 				ti := invInit[k]
 				r := e.root()
-				r.obls = append(r.obls, Obligation{Name: fmt.Sprintf("%s.loop%d.inv%d.init", e.w.fnKey(e.fn), l.ordinal, k+1), Kind: "inv", Cond: reach, Goal: ti, Pos: b.Instrs[0].Pos(), Fn: e.w.fnKey(e.fn), Groups: invGroups(inv)})
+				r.obls = append(r.obls, Obligation{Name: fmt.Sprintf("%s.loop%d.inv%d.init", e.w.fnKey(e.fn), l.ordinal, k+1), Kind: "inv", Cond: reach, Goal: ti, Pos: b.Instrs[0].Pos(), Fn: e.w.fnKey(e.fn), Groups: invGroups(inv), InvOf: invOf(inv)})
 			}
 		}
 		if e.parent == nil && !e.noObl {
@@ -568,6 +568,13 @@ func allGroups(spec *loopSpec) []string {
 		}
 	}
 	return gs
+}
+
+func invOf(inv *Clause) string {
+	if inv.name == "" {
+		return "-"
+	}
+	return inv.name
 }
 
 // invGroups: the invariant groups an invariant's own obligations switch on (its own group and the ones it names).
@@ -780,6 +787,7 @@ func (e *Exec) invExpr(x *Expr, head *ssa.BasicBlock, phiVals map[*ssa.Phi]Term,
 		}
 	} else {
 		env.goalSk = e.root().goalSk
+		env.stepGoal = true
 		// candidate witnesses for existentials in the invariant, and instantiation points for its hypotheses
 		if e.root().existsInv() {
 			env.hypInst = append(append([]Term{}, e.root().loopKs...), e.root().witnessesFor(e.root().goalGroups)...)
@@ -945,11 +953,11 @@ func (e *Exec) finishInvariants() {
 						if e.subset != nil && !e.subset[p] {
 							continue
 						}
-						e.obls = append(e.obls, Obligation{Name: fmt.Sprintf("%s.loop%d.inv%d.step@%d.%d", e.w.fnKey(e.fn), l.ordinal, k+1, lt.Index, p.Index), Kind: "inv", Cond: and(e.edgeCond(p, lt), e.edgeCond(lt, l.head)), Goal: t, Pos: l.head.Instrs[0].Pos(), Fn: e.w.fnKey(e.fn), Groups: invGroups(inv)})
+						e.obls = append(e.obls, Obligation{Name: fmt.Sprintf("%s.loop%d.inv%d.step@%d.%d", e.w.fnKey(e.fn), l.ordinal, k+1, lt.Index, p.Index), Kind: "inv", Cond: and(e.edgeCond(p, lt), e.edgeCond(lt, l.head)), Goal: t, Pos: l.head.Instrs[0].Pos(), Fn: e.w.fnKey(e.fn), Groups: invGroups(inv), InvOf: invOf(inv)})
 					}
 					continue
 				}
-				e.obls = append(e.obls, Obligation{Name: fmt.Sprintf("%s.loop%d.inv%d.step@%d", e.w.fnKey(e.fn), l.ordinal, k+1, lt.Index), Kind: "inv", Cond: e.edgeCond(lt, l.head), Goal: t, Pos: l.head.Instrs[0].Pos(), Fn: e.w.fnKey(e.fn), Groups: invGroups(inv)})
+				e.obls = append(e.obls, Obligation{Name: fmt.Sprintf("%s.loop%d.inv%d.step@%d", e.w.fnKey(e.fn), l.ordinal, k+1, lt.Index), Kind: "inv", Cond: e.edgeCond(lt, l.head), Goal: t, Pos: l.head.Instrs[0].Pos(), Fn: e.w.fnKey(e.fn), Groups: invGroups(inv), InvOf: invOf(inv)})
 			}
 			// termination: the variant is non-negative at the head and smaller when control comes back to it
 			for k, dc := range pi.spec.decreases {
